@@ -1,0 +1,20 @@
+//go:build verif
+
+package strings
+
+// Contracts (structured comments read by /verif/engine). Comment-only file.
+
+// C19: safety sweep of the hand-written bodies behind the strings module:
+// no Go panic for any well-formed arguments, and sizes that are not constants
+// (repeat counts, pad lengths, allocation sizes) stay below the 2 GiB limit
+// or within the length of an argument.
+
+//@ func containsFunc, containsAnyFunc, containsCharFunc, countFunc, equalFoldFunc, fieldsFunc, hasPrefixFunc, hasSuffixFunc, indexFunc, indexAnyFunc, indexByteFunc, indexCharFunc, joinFunc, lastIndexFunc, lastIndexAnyFunc, lastIndexByteFunc, repeatFunc, titleFunc, toLowerFunc, toTitleFunc, toUpperFunc, trimFunc, trimLeftFunc, trimPrefixFunc, trimRightFunc, trimSpaceFunc, trimSuffixFunc
+//@ requires $args
+//@ opaque String, TypeName
+//@ property C19
+
+//@ func pad, replaceFunc, toValidUTF8Func
+//@ requires $args
+//@ opaque String, TypeName
+//@ property C19
